@@ -49,7 +49,12 @@ pub fn decode(sender: &str, payload: &mut [u8]) -> Decoded {
             }
             FrameMut::MaxData(f) => json!({"ty": "max_data", "v": f.maximum_data.as_u64()}),
             FrameMut::MaxStreamData(f) => json!({"ty": "max_stream_data", "id": f.stream_id.as_u64(), "v": f.maximum_stream_data.as_u64()}),
-            FrameMut::MaxStreams(f) => json!({"ty": "max_streams", "bidi": f.stream_type.is_bidirectional(), "v": f.maximum_streams.as_u64()}),
+            FrameMut::MaxStreams(f) => {
+                // values beyond TLC's integers are clamped and flagged (only an attacker sends them)
+                let v = f.maximum_streams.as_u64();
+                if v > 2_000_000_000 { json!({"ty": "max_streams", "bidi": f.stream_type.is_bidirectional(), "v": 2_000_000_001u64, "huge": true}) }
+                else { json!({"ty": "max_streams", "bidi": f.stream_type.is_bidirectional(), "v": v}) }
+            }
             FrameMut::DataBlocked(f) => json!({"ty": "data_blocked", "v": f.data_limit.as_u64()}),
             FrameMut::StreamDataBlocked(f) => json!({"ty": "stream_data_blocked", "id": f.stream_id.as_u64(), "v": f.stream_data_limit.as_u64()}),
             FrameMut::StreamsBlocked(f) => json!({"ty": "streams_blocked", "bidi": f.stream_type.is_bidirectional(), "v": f.stream_limit.as_u64()}),
